@@ -112,13 +112,52 @@ def fresh_on_manifold(w, G, name):
     return X, p, quats_of(w, G, p)
 
 
-def verdict(rep, rule, instance, A, B, quats=(), where=None, what="", unknown_ok=False, fact=None):
+def wrap_beyond_pi(M):
+    """Replace every atan2(sin a, cos a) in M by a - 2 pi (its value for pi < a < 3 pi).  -> (matrix, replacements)"""
+    from ..poly import deep_subs
+    from .. import casadi_model as cm_
+    n = [0]
+
+    def f(a):
+        if a.kind != "atan2":
+            return None
+        s_, c_ = a.key[0].single_atom(), a.key[1].single_atom()
+        if s_ is None or c_ is None or s_.kind != "sin" or c_.kind != "cos" or s_.key[0] != c_.key[0]:
+            return None
+        n[0] += 1
+        return s_.key[0] - cm_.PI_POLY.scale(2)
+    memo = {}
+    out = MatVal(M.r, M.c, [[deep_subs(p_, f, memo) if p_.t else p_ for p_ in row] for row in M.cells], M.kind)
+    return out, n[0]
+
+
+def beyond_pi_difference(A, B, rows, quats=()):
+    """atan2(sin a, cos a) is the angle a wrapped to (-pi, pi]: on pi < a < 3 pi it is exactly a - 2 pi.  A difference of the
+    given rows on that region is a difference (for rotation angles beyond pi); agreement there decides nothing about the
+    rest.  Only rows that are NOT angles themselves may be given (an angle is compared modulo 2 pi).  -> message or None"""
+    Aw, na = wrap_beyond_pi(A)
+    Bw, nb = wrap_beyond_pi(B)
+    if not (na or nb) or A.shape != B.shape:
+        return None
+    pick = lambda M: MatVal(len(rows), M.c, [M.cells[i] for i in rows], M.kind)
+    v2, d2 = decide_mat(pick(Aw), pick(Bw), quats)
+    if v2 == DIFFERENT:
+        return "for an angle beyond pi (pi < a < 3 pi, where atan2(sin a, cos a) = a - 2 pi) value numbers differ, %s" % d2
+    return None
+
+
+def verdict(rep, rule, instance, A, B, quats=(), where=None, what="", unknown_ok=False, fact=None, beyond_pi_rows=None):
     """Compare two matrices; record ok / fail / incomplete.  Returns the verdict string."""
     v, d = decide_mat(A, B, quats)
     if v == UNKNOWN and A.shape == B.shape and any(a.kind == "sign" for M in (A, B) for p_ in M.flat() for a in all_atoms(p_)):
         # sign(x) of an input: decided on x > 0, x < 0 and on the hyperplane x = 0 (where sign is 0) separately
         from .liecommon import decide_by_cases
         v, d = decide_by_cases(A, B, quats)
+    if v == UNKNOWN and beyond_pi_rows:
+        m = beyond_pi_difference(A, B, beyond_pi_rows, quats)
+        if m:
+            rep.fail(rule, instance, "%s: %s" % (what or "identity violated", m), where=where, fact={"difference": m, "case": "pi < a < 3 pi"})
+            return DIFFERENT
     if v == EQUAL:
         rep.ok(rule, instance, fact=fact or {"equal_cells": A.r * A.c})
     elif v == DIFFERENT:
